@@ -18,7 +18,7 @@ CMap(m)      == [k |-> "map",   m |-> m]
 CBool(v)     == [k |-> "bool",  v |-> v]
 CNull        == [k |-> "null"]
 CUndef       == [k |-> "undef"]
-CSimple(n)   == [k |-> "simple", n |-> n]           \* n \in 0..19 \cup 32..255
+CSimple(n)   == [k |-> "simple", s |-> n]           \* n \in 0..19 \cup 32..255
 CFloat(w, b) == [k |-> "float", w |-> w, b |-> b]   \* w \in {2,4,8}, b the raw bytes
 CTag(bn, v)  == [k |-> "tag",   n |-> bn, v |-> v]
 
@@ -72,7 +72,7 @@ ArgOf(v) ==
       [] v.k = "bytes" -> BN(Len(v.b)) [] v.k = "text" -> BN(Len(v.b))
       [] v.k = "array" -> BN(Len(v.a)) [] v.k = "map" -> BN(Len(v.m))
       [] v.k = "tag" -> v.n
-      [] v.k = "simple" -> BN(v.n)
+      [] v.k = "simple" -> BN(v.s)
 
 RECURSIVE Enc(_), EncAll(_, _), EncPairs(_, _), EncBody(_)
 
@@ -92,7 +92,7 @@ Enc(v) ==
     CASE v.k = "bool"   -> <<IF v.v THEN 245 ELSE 244>>
       [] v.k = "null"   -> <<246>>
       [] v.k = "undef"  -> <<247>>
-      [] v.k = "simple" -> (IF v.n <= 23 THEN <<224 + v.n>> ELSE <<248, v.n>>)
+      [] v.k = "simple" -> (IF v.s <= 23 THEN <<224 + v.s>> ELSE <<248, v.s>>)
       [] v.k = "float"  -> <<(CASE v.w = 2 -> 249 [] v.w = 4 -> 250 [] v.w = 8 -> 251)>> \o v.b
       [] v.k = "raw"    -> v.b
       [] v.k = "wide"   -> HeadW(MajorOf(v.v), ArgOf(v.v), v.w) \o EncBody(v.v)
